@@ -47,8 +47,9 @@ def ph(p):
 
 
 def obs_term(o):
-    return "(mkO %s %d %d %d (%d, %d, %d))" % (coq_list([str(x) for x in (o["ops"] or [])]), min(o["err"], 9), o["ran"],
-                                                o["status"], o["biz"][0], o["biz"][1], o["biz"][2])
+    b2 = o.get("biz2") or o["biz"]
+    return "(mkO %s %d %d %d (%d, %d, %d) (%d, %d, %d))" % (coq_list([str(x) for x in (o["ops"] or [])]), min(o["err"], 9), o["ran"],
+                                                             o["status"], o["biz"][0], o["biz"][1], o["biz"][2], b2[0], b2[1], b2[2])
 
 
 def case_term(c):
@@ -230,7 +231,8 @@ def run(chk, replay_case=None):
         "deliveries_executed_on_real_code": n_deliv,
         "distinct_nontrivial": vlib.distinct([(c["hist"], c.get("race")) for c in cases if nontrivial(c)]),
         "rule": "histories over {prepare, commit, rollback} of one branch, all of length <= %(seqlen)d, fault-free; all histories of "
-                "length <= %(faultlen)d with a fault at every (delivery, operation index 0..9); %(nsample)d sampled histories of "
+                "length <= %(faultlen)d with a fault at every (delivery, operation index 0..9) - the business step is two statements, "
+                "and a failure at one of them is injected as a generic error, MySQL 1205, MySQL 1213 or driver.ErrBadConn; %(nsample)d sampled histories of "
                 "length <= 12 over 1-4 branches sharing the table (two xids, fault probability 1/4 per delivery, 10%% with invalid "
                 "phases = malformed stream); for every initial status (5) and phase pair (9) all 2^%(schedbits)d schedule prefixes "
                 "of the two racing deliveries. Non-trivial = at least two deliveries, or a fault, or a race; distinct by "
